@@ -122,6 +122,11 @@ def determinism(args, seed):
     return 0 if diffs == 0 else 1
 
 
+def _put_and_die(q, trial):
+    q.put(("x" * (10 if trial % 2 == 0 else 300000), trial))
+    os._exit(1)  # the feeder thread may or may not have flushed
+
+
 def stub_conformance(args, seed):
     """A handful of scenarios once against REAL multiprocessing and once against the fakes: results and aggregated
     statistics must agree (not a deciding check: it validates the stub, DESIGN.md 2.4)."""
@@ -167,6 +172,29 @@ def stub_conformance(args, seed):
         if real != simr or real_stats != sim_stats:
             bad += 1
             print(f"stub conformance DIFFERS on {gen.render_model(model)} split({k},{var}) {op}: real {str(real)[:200]} {real_stats} / sim {str(simr)[:200]} {sim_stats}")
+    # Queue.qsize() is modelled as a semaphore count (puts made by producers minus gets), whether or not the message
+    # ever reached the pipe: validated here against the real class with a producer that dies right after its put
+    import multiprocessing as mp
+    import queue as _q
+
+    ctx = mp.get_context("fork")
+    for trial in range(4):
+        q = ctx.Queue()
+        pr = ctx.Process(target=_put_and_die, args=(q, trial))
+        pr.start()
+        pr.join()
+        size_after_death = q.qsize()
+        try:
+            q.get(timeout=0.5)
+            arrived = True
+        except _q.Empty:
+            arrived = False
+        n += 1
+        want = 0 if arrived else 1
+        if size_after_death != 1 or q.qsize() != want:
+            bad += 1
+            print(f"stub conformance DIFFERS: real qsize after a dying put = {size_after_death}, after get (arrived={arrived}) = {q.qsize()}")
+        q.cancel_join_thread()
     print(f"stub conformance: {n} scenarios run against real multiprocessing and against the fakes, {bad} differ")
     with open(os.path.join(ROOT, "evidence", "selftest-stub-conformance.json"), "w") as f:
         json.dump({"scenarios": n, "differing": bad}, f)
